@@ -11,6 +11,7 @@ from vt.props import common as cm
 
 PID = "C02"
 RULE = (
+    "[plus a small 'cli_wiring' part: generated `taskiq worker` flag sets parsed by the real WorkerArgs.from_cli and turned into a receiver by the real start_listen(); the acknowledge type selected with --ack-type (any case; default when_saved) is the one the worker's receiver uses] "
     "Hypothesis-generated scenarios: 1-8 ackable messages (sync or async ack callback; a few malformed/unknown), "
     "three acknowledge types, async bodies optionally with an asynchronous clean-up in `finally` (they finish only some time after a timeout cancels them), outcomes return / Exception / BaseException subclasses / timeout label exceeded / "
     "no-result / result-backend failure on a generated subset of saves, save latency, A in 1..4, P in 0..3, optional "
@@ -160,3 +161,33 @@ SELFTEST_CASES = [{
     "msgs": [{"kind": "async", "at": 0.0, "dur": 0.3, "out": "ret", "ack": "sync", "timeout": None},
              {"kind": "async", "at": 0.1, "dur": 1.0, "out": "ValueError", "ack": "async", "timeout": 0.3}],
 }]
+
+
+
+# ---------------------------------------------------------------- CLI wiring: from worker flags to the receiver
+#
+# the acknowledge type selected with --ack-type (any case; default when_saved) is the one the worker's receiver uses.  Flags are parsed with the real WorkerArgs.from_cli and the real start_listen() builds the receiver
+# (a recording subclass whose listen() returns at once).
+
+from vt.harness import cliwire as _cliwire
+
+_parts_core = parts
+_run_core = run_case
+
+
+def parts(tier: str) -> List[Part]:  # type: ignore[no-redef]
+    ps = _parts_core(tier)
+    ps.append(Part("cli_wiring", "given", shards=1, examples=1500 if tier == "thorough" else 150,
+                   strategy=lambda: _cliwire.FLAGS.map(lambda f: {"flags": f}), soft_deadline_s=300))
+    return ps
+
+
+def run_case(case: Dict[str, Any]) -> Outcome:  # type: ignore[no-redef]
+    if "flags" not in case:
+        return _run_core(case)
+    out = Outcome()
+    out.clauses_checked = ["C02.b"]
+    _cliwire.check(case["flags"], ['ack_type'], "C02.b", out)
+    out.nontrivial = any(case["flags"].get(k) not in (None, False) for k in case["flags"])
+    out.classes = ["cli_wiring"]
+    return out
